@@ -165,4 +165,79 @@ def libraryReveal (c : CryptoOps) (kv : KeyView) (data : Bytes) : Out Bytes := d
     | none => .err
     | some ks => decryptWholeBlock c ks [] internal
 
+/-! ### the table of entry points (C01 "entry points agree") -/
+
+/-- the protecting entry points -/
+inductive Producer where
+  /-- library create + `SerializeEncryptedData` -/
+  | library
+  /-- `RegistryHandler.EncryptWithHandler` -/
+  | handler
+  /-- the write chain of the SQL proxies: `RegistryHandler.EncryptWithClientID` with the column's setting -/
+  | sqlWrite
+  /-- AcraTranslator `Encrypt` / `EncryptSym` -/
+  | translator
+  /-- AcraTranslator `EncryptSearchable` / `EncryptSymSearchable` (the envelope of the response) -/
+  | translatorSearchable
+deriving DecidableEq, Repr
+
+def Producer.all : List Producer := [.library, .handler, .sqlWrite, .translator, .translatorSearchable]
+
+/-- the revealing entry points -/
+inductive Consumer where
+  /-- `DeserializeEncryptedData` + library decrypt of the inner envelope -/
+  | library
+  /-- `RegistryHandler.Process` -/
+  | reveal
+  /-- AcraTranslator `Decrypt` (`.struct`) / `DecryptSym` (`.block`) -/
+  | translator (k : Kind)
+  /-- AcraTranslator `DecryptSearchable` / `DecryptSymSearchable`, hash as separate argument -/
+  | translatorSearchableSep (k : Kind)
+  /-- the same with the hash concatenated in front of the value -/
+  | translatorSearchableCat (k : Kind)
+  /-- `EnvelopeDetector.OnColumn` with the decrypt callback -/
+  | onColumn
+  /-- `OldContainerDetectorWrapper.OnColumn` with the decrypt callback -/
+  | onColumnCompat
+deriving DecidableEq, Repr
+
+def Consumer.all : List Consumer :=
+  [.library, .reveal, .translator .struct, .translator .block, .translatorSearchableSep .struct,
+   .translatorSearchableSep .block, .translatorSearchableCat .struct, .translatorSearchableCat .block,
+   .onColumn, .onColumnCompat]
+
+/-- the AcraTranslator decrypt operations work with the handler of ONE envelope kind; every other
+revealing entry point picks the handler by the envelope id of the value -/
+def Consumer.accepts : Consumer → Kind → Bool
+  | .translator k', k => k' == k
+  | .translatorSearchableSep k', k => k' == k
+  | .translatorSearchableCat k', k => k' == k
+  | _, _ => true
+
+/-- what client `id` gets stored when protecting `m` with envelope kind `k` through the entry point -/
+def produce (P : Producer) (c : CryptoOps) (st : Store) (id : Bytes) (k : Kind) (m rnd : Bytes) : Out Bytes :=
+  match P with
+  | .library => libraryProtect c (st.keys id) k m rnd
+  | .handler => protect c (st.keys id) k m rnd
+  | .sqlWrite => protect c (st.keys id) k m rnd
+  | .translator => encryptOf k c st m (some id) none rnd
+  | .translatorSearchable => (encryptSearchableWith k c st m (some id) none rnd).bind fun r => .ok r.1
+
+def scanBytes : ScanOut → Out Bytes
+  | .ok b _ => .ok b
+  | .fatal => .err
+  | .panic => .panic
+
+/-- what client `id` gets back for the stored value `p` through the entry point; `hash` is the search
+hash kept next to the value (used by the searchable operations only) -/
+def consume (C : Consumer) (c : CryptoOps) (st : Store) (id p hash : Bytes) : Out Bytes :=
+  match C with
+  | .library => libraryReveal c (st.keys id) p
+  | .reveal => reveal c (st.keys id) p
+  | .translator k => (decryptOf k c st p (some id) none).1
+  | .translatorSearchableSep k => (decryptSearchableWith k c st p (some hash) (some id) none).1
+  | .translatorSearchableCat k => (decryptSearchableWith k c st (hash ++ p) none (some id) none).1
+  | .onColumn => scanBytes (onColumn [decryptCallback c (st.keys id)] p)
+  | .onColumnCompat => scanBytes (onColumnCompat [decryptCallback c (st.keys id)] p)
+
 end AcraModel.Envelope.Translator
